@@ -262,7 +262,7 @@ func (s *surf6) setup(c *child) error {
 	return nil
 }
 
-func (s *surf6) close()                              {}
+func (s *surf6) close()                          {}
 func (s *surf6) timeout(in *Input) time.Duration { return 10 * time.Second }
 
 func (s *surf6) gen(idx int) *Input {
